@@ -225,6 +225,21 @@ theorem changeTagsOps_accepted (r : Repo) (old newId : Nat) (so : Snap) (changed
     refine ⟨?_, hne⟩
     rw [← hres]; exact restorable_needs_eq rfl
 
+/-- **C26 end to end for `changeTags`**: at every crash point of the operations it issues, the
+    old snapshot or the new one exists. -/
+theorem changeTags_safe (r : Repo) (old newId : Nat) (so : Snap) (changed : Bool)
+    (hl : lookupSnap r old = some so) (hne : newId ≠ old) (hres : restorable r so = true) (k : Nat) :
+    snapPresent (applyAll r ((changeTagsOps old so changed newId).take k)) old = true ∨
+      snapPresent (applyAll r ((changeTagsOps old so changed newId).take k)) newId = true := by
+  rcases one_exists r old _ (changeTagsOps_accepted r old newId so changed hl hne hres) k with h | ⟨n, hn, h⟩
+  · exact Or.inl h
+  · right
+    cases changed with
+    | false => simp [changeTagsOps, newSnapIds] at hn
+    | true =>
+      simp [changeTagsOps, newSnapIds] at hn
+      subst hn; exact h
+
 /-- uploads: guarded pack / index saves only -/
 def uploadsOnly (r : Repo) (up : List Ev) : Bool := acceptAdds r up && up.all (fun e => !isSaveSnap e)
 
